@@ -3306,3 +3306,75 @@ func c12R8(c *Ctx, r *Report) {
 		}
 	}
 }
+
+// ---- C12.R9: a named type is resolved through its module, never by its bare name ------------------------------
+
+func init() {
+	lateInits = append(lateInits, func() {
+		props["C12"].Quick = append(props["C12"].Quick, c12R9)
+		props["C01"].Quick = append(props["C01"].Quick, c12R9)
+		props["C12"].Explanation += " (R9) in the type checker and in MIR generation the by-name type lookup (lookupTypeSymbol) receives the Name of a NamedType only inside lookupNamedTypeSymbol, which consults the type's Module first: the private fields, the methods and the method symbols of `lib::Counter` are those of lib's declaration even when this module declares a `Counter` too or does not import lib directly."
+	})
+}
+
+func c12R9(c *Ctx, r *Report) {
+	const rule = "C12.R9"
+	r.Describe(rule, "typechecker, mir/gen: every call of a function named lookupTypeSymbol whose name argument is <NamedType>.Name (directly or through a local initialised from it) is in a function named lookupNamedTypeSymbol, and that function reads the .Module field")
+	n := 0
+	for _, rel := range []string{pkgTC, pkgMIRGen} {
+		wrapperSeen := false
+		for _, fn := range c.AllFns(rel) {
+			info := fn.Info()
+			defs := localDefs(fn)
+			fromNamed := func(e ast.Expr) bool {
+				isNamedName := func(x ast.Expr) bool {
+					sel, ok := ast.Unparen(x).(*ast.SelectorExpr)
+					if !ok || sel.Sel.Name != "Name" {
+						return false
+					}
+					nt := namedOf(info.TypeOf(sel.X))
+					return nt != nil && nt.Obj().Name() == "NamedType"
+				}
+				if isNamedName(e) {
+					return true
+				}
+				if o := objOf(info, e); o != nil {
+					for _, d := range defs[o] {
+						if isNamedName(d) {
+							return true
+						}
+					}
+				}
+				return false
+			}
+			isWrapper := strings.HasSuffix(fn.Obj.Name(), "lookupNamedTypeSymbol")
+			if isWrapper {
+				wrapperSeen = true
+				readsModule := false
+				ast.Inspect(fn.Decl.Body, func(x ast.Node) bool {
+					if sel, ok := x.(*ast.SelectorExpr); ok && sel.Sel.Name == "Module" {
+						readsModule = true
+					}
+					return true
+				})
+				r.Check(readsModule, rule, fn.Name(), "resolves through NamedType.Module", c.pos(fn.Decl.Pos()), "the named-type lookup does not consult the module the type records")
+			}
+			for _, cl := range callsIn(fn.Decl.Body, true) {
+				f := callee(info, cl)
+				if f == nil || f.Name() != "lookupTypeSymbol" {
+					continue
+				}
+				for _, a := range cl.Args {
+					if !fromNamed(a) {
+						continue
+					}
+					n++
+					r.Check(isWrapper, rule, fn.Name(), "by-name lookup of "+exprStr(a), c.pos(cl.Pos()),
+						"the symbol of a named type is looked up by its bare name, this module first: with `type Counter` declared here and in lib, `lib::NewCounter().Get()` calls this module's Get (prints 8 instead of 107), and a type reached through an intermediate module is not found at all, so the private-field guard of casts lets `mid::Get() as Mirror` through")
+				}
+			}
+		}
+		r.Check(wrapperSeen, rule, rel, "has a lookupNamedTypeSymbol", "-", "anchor: no module-aware named-type lookup in this package")
+	}
+	r.Floor(rule, n, 2, "by-name lookups of a NamedType")
+}
